@@ -704,6 +704,8 @@ def prop(case):
     if k in ("call", "form"):
         budget = float(os.environ.get("VF_CASE_BUDGET", "20"))
         return run_snap(case, budget)
+    if k == "probe":
+        return probe_prop(case["name"])
     if k == "fuzz":
         return run_fuzz_snap(case, float(os.environ.get("VF_CASE_BUDGET",
                                                         "20")))
@@ -847,6 +849,59 @@ def part_fuzz(part, n):
     sw.close()
 
 
+PROBES = [
+    # (name, program, expected value)
+    ("function-alias-keeps-hash",
+     "def f = fn(x) x; def s = <<f>>; def m = <<<identity(f) => 1>>>; "
+     "def g = f; [f in s, m[f], length(<<f, g>>), g in s]",
+     [True, 1, 1, True]),
+    ("builtin-alias-keeps-hash",
+     "def s = <<length>>; def g = length; [length in s, g in s]",
+     [True, True]),
+    # shared by reference: a mutation is visible through every holder, also
+    # through a set / a map that holds the value as element / key
+    ("element-mutated-inside-set",
+     "def l = [1]; def st = <<l>>; append(l, 2); "
+     "[l in st, [1, 2] in st, length(remove(st, l))]", [True, True, 0]),
+    ("key-mutated-inside-map",
+     "def l = [1]; def m = <<<>>>; m[l] = 'v'; append(l, 2); "
+     "[l in m, m[l], string(m)]", [True, "v", "<<<[1, 2] => 'v'>>>"]),
+    # values produced by non-mutating operations are independent of their
+    # inputs - also strings, which element assignment changes in place
+    ("string-result-independent-of-input",
+     "def s = 'abc'; def t = replace(s, 'zz', 'y'); t[0] = 'X'; [s, t]",
+     ["abc", "Xbc"]),
+    ("string-key-handed-out-by-iteration",
+     "def m = <<<'abc' => 1>>>; for k in keys m do k[0] = 'X' end; "
+     "['abc' in m, string(m)]", [True, "<<<'abc' => 1>>>"]),
+]
+
+
+def probe_prop(name):
+    for n, src, want in PROBES:
+        if n != name:
+            continue
+        out = cklrun.run(src, budget=20)
+        if out[0] != "value":
+            return Finding(f"C16|probe|{name}|{out[0]}",
+                           f"{src} -> {cklrun.short(out)}; expected {want!r}")
+        got = cklrun.to_model(out[1])
+        if got != want:
+            return Finding(f"C16|probe|{name}",
+                           f"{src} -> {got!r}; expected {want!r}")
+        return None
+    raise ValueError(name)
+
+
+def part_probes(part):
+    for name, src, want in PROBES:
+        part.count()
+        part.distinct()
+        part.cls("probe:" + name, src)
+        part.collect(probe_prop(name), {"kind": "probe", "name": name})
+    part.exhaustive = True
+
+
 def part_literal(part):
     part.count()
     part.distinct(2)
@@ -862,7 +917,7 @@ def parts(tier, seed):
                 {"shard": i, "nshards": 3, "sample3": 0.1}) for i in range(3)]
         ps += [(f"heap-{i}", part_heap, {"n": 1500, "steps": 16})
                for i in range(5)]
-        ps += [("literal", part_literal, {})]
+        ps += [("literal", part_literal, {}), ("probes", part_probes, {})]
         ps += [(f"fuzz-{i}", part_fuzz, {"n": 5000}) for i in range(6)]
     else:
         ps = [(f"sweep-fn-{i}", part_sweep_functions,
@@ -872,6 +927,6 @@ def parts(tier, seed):
                 {"shard": i, "nshards": 6, "sample3": 1.0}) for i in range(6)]
         ps += [(f"heap-{i}", part_heap, {"n": 20000, "steps": 24})
                for i in range(6)]
-        ps += [("literal", part_literal, {})]
+        ps += [("literal", part_literal, {}), ("probes", part_probes, {})]
         ps += [(f"fuzz-{i}", part_fuzz, {"n": 120000}) for i in range(8)]
     return ps
